@@ -282,10 +282,10 @@ Proof.
       * intros _. exists i. rewrite Nat.eqb_refl. auto.
       * intros Hr. exists j. split; [|apply Hmem; auto]. destruct (Nat.eqb_spec j i); [contradiction|auto].
   - intros a b r r'. rewrite !live_at_overwrite.
-    destruct (Nat.eqb_spec a i); [discriminate|]. destruct (Nat.eqb_spec b i); [discriminate|].
+    destruct (Nat.eqb_spec a i) as [|Nai]; [discriminate|]. destruct (Nat.eqb_spec b i) as [|Nbi]; [discriminate|].
     destruct (Nat.eqb_spec a (length rs)); destruct (Nat.eqb_spec b (length rs)); intros H1 H2 Hkk; subst; auto.
-    + inversion H1; subst. exfalso. apply n0. eapply Huniq; eauto. congruence.
-    + inversion H2; subst. exfalso. apply n. eapply Huniq; eauto. congruence.
+    + inversion H1; subst. exfalso. apply Nbi. eapply Huniq; eauto. congruence.
+    + inversion H2; subst. exfalso. apply Nai. eapply Huniq; eauto. congruence.
     + eapply Huniq; eauto.
 Qed.
 
@@ -300,8 +300,8 @@ Proof.
     + intros E. inversion E; subst. exists (length rs). rewrite live_at_overwrite.
       destruct (Nat.eqb_spec (length rs) i); [lia|]. rewrite Nat.eqb_refl. auto.
     + intros (j & Hl & Hkj). rewrite live_at_overwrite in Hl.
-      destruct (Nat.eqb_spec j i); [discriminate|]. destruct (j =? length rs); [congruence|].
-      exfalso. apply n. eapply Huniq; eauto.
+      destruct (Nat.eqb_spec j i) as [|Nji]; [discriminate|]. destruct (j =? length rs); [congruence|].
+      exfalso. apply Nji. eapply Huniq; eauto.
   - rewrite (HA k r). split; intros (j & Hl & Hkj); exists j; split; auto.
     + rewrite live_at_overwrite. pose proof (live_at_lt _ _ _ Hl).
       destruct (Nat.eqb_spec j i).
@@ -333,7 +333,7 @@ Proof.
   intros k r. unfold sdel. destruct (keyb k (key_of c cur)) eqn:K.
   - apply keyb_eq in K. subst k. split; [discriminate|].
     intros (j & Hl & Hkj). rewrite live_at_set_stale in Hl.
-    destruct (Nat.eqb_spec j i); [discriminate|]. exfalso. apply n. eapply Huniq; eauto.
+    destruct (Nat.eqb_spec j i) as [|Nji]; [discriminate|]. exfalso. apply Nji. eapply Huniq; eauto.
   - rewrite (HA k r). split; intros (j & Hl & Hkj); exists j; split; auto.
     + rewrite live_at_set_stale. destruct (Nat.eqb_spec j i); auto.
       subst. rewrite Hi in Hl. inversion Hl; subst. rewrite keyb_refl in K. discriminate.
